@@ -28,7 +28,7 @@ func init() {
 	register(&c05{base{
 		id:          "C05",
 		level:       lvlExploration,
-		rule:        "each case draws a file set (1..12 files, sizes around the slice size and around 16384, names in sub-directories, random/zero/periodic/duplicate-slice content), a slice size, a recovery-block count (1..hundreds) and a goroutine count, runs the real par2.Create on a real directory and hands EVERY file it wrote to an independent PAR2 reader that re-derives all IDs, hashes, checksums and every recovery block sum(slice_i*c_i^e) with reference arithmetic; kinds: small, many-blocks (>100 blocks, 3-digit volume names), many-slices (>256 / thousands of slices), limit (32768 slices, thorough). A key is (kind, slice size, files, blocks, goroutines, total slices). Every seventh set lists some inputs twice under other spellings: Create must refuse the list or write a conformant set of the distinct files. Kind obstacle: a directory squats on the name of one recovery file (learnt from a trial run): Create must return an error. Also: sets written through ONE par2.Encoder object whose LoadFileData step is repeated (after a missing input, after the files changed, unchanged) - an error is accepted, a nil result is validated like any other set; kind unreadable-input (a directory, a missing path or a dangling link among the inputs): Create must fail.. Kind big-slice: packet bodies above 64 KiB (slices of 64-128 KiB, files of 3300+ slices).. Kind many-both-max (420-520 slices x 190-230 blocks). Kind illegal-slice-size: Create with sizes that are not a positive multiple of 4 may refuse; whatever it writes must still be a packet stream whose main packet declares a legal slice size. Kind refusable-input (a Latin-1, a UTF-8 and a control-character name, an empty file first or last): refused, or the complete set validated like any other.",
+		rule:        "each case draws a file set (1..12 files, sizes around the slice size and around 16384, names in sub-directories, random/zero/periodic/duplicate-slice content), a slice size, a recovery-block count (1..hundreds) and a goroutine count, runs the real par2.Create on a real directory and hands EVERY file it wrote to an independent PAR2 reader that re-derives all IDs, hashes, checksums and every recovery block sum(slice_i*c_i^e) with reference arithmetic; kinds: small, many-blocks (>100 blocks, 3-digit volume names), many-slices (>256 / thousands of slices), limit (32768 slices, thorough). A key is (kind, slice size, files, blocks, goroutines, total slices). Every seventh set lists some inputs twice under other spellings: Create must refuse the list or write a conformant set of the distinct files. Kind obstacle: a directory squats on the name of one recovery file (learnt from a trial run): Create must return an error. Also: sets written through ONE par2.Encoder object whose LoadFileData step is repeated (after a missing input, after the files changed, unchanged) - an error is accepted, a nil result is validated like any other set; kind unreadable-input (a directory, a missing path or a dangling link among the inputs): Create must fail.. Kind big-slice: packet bodies above 64 KiB (slices of 64-128 KiB, files of 3300+ slices).. Kind many-both-max (420-520 slices x 190-230 blocks). Kind illegal-slice-size: Create with sizes that are not a positive multiple of 4 may refuse; whatever it writes must still be a packet stream whose main packet declares a legal slice size. Kind refusable-input (a Latin-1, a UTF-8 and a control-character name, an empty file first or last): refused, or the complete set validated like any other. Kind recreate-changed-tail: files above 16 KiB edited behind their first 16 KiB and protected again in the same process (same file IDs and set ID), three generations.",
 		assumptions: append([]string{"file ID input is (16k hash, length, name without NUL padding), the reading par2cmdline implements"}, commonAssumptions...),
 		opts:        core.WorkerOpts{CrashIsViolation: true, WallSeconds: 2400},
 	}})
